@@ -242,12 +242,16 @@ def shadow_probe(h, mk, is_bundle=False):
     was, or it is the one object that get(), attribute access, the namespace and its kind view all return."""
     names = sorted({n for n in dir(mk()) if not n.startswith("__")} | {"_x", "_fresh_private"})
     for nm in names:
-        for how in FORMS:
+        for how in FORMS + ["class_body"]:
             o = mk()
             sgn = h.Signal()
             before = dict(o.namespace)
             try:
-                if how == "setattr":
+                if how == "class_body":
+                    # the same name bound in a class-style definition
+                    before = {}
+                    o = (h.bundle if is_bundle else h.module)(type("Subject", (), {nm: sgn}))
+                elif how == "setattr":
                     setattr(o, nm, sgn)
                 elif how == "add_named":
                     sgn.name = nm
@@ -255,7 +259,7 @@ def shadow_probe(h, mk, is_bundle=False):
                 else:
                     o.add(sgn, name=nm)
             except Exception:
-                if dict(o.namespace) != before:
+                if how != "class_body" and dict(o.namespace) != before:
                     return f"refused {how} under the name {nm!r} still changed the namespace"
                 continue
             try:
